@@ -288,3 +288,87 @@ Proof.
   apply filter_In in Hin. destruct Hin as [Hin _]. apply in_map_iff in Hin.
   destruct Hin as [q' [Hq Hin]]. injection Hq as _ ->. exact Hin.
 Qed.
+
+(* [lo..hi] inside the union of two range lists, walking both from the front
+   (linear when both are sorted by lo; sound whatever their order) *)
+Fixpoint cover2 (fuel : nat) (lo hi : N) (a b : ranges) : bool :=
+  match fuel with
+  | O => false
+  | S f =>
+      match a with
+      | (al, ah) :: a' =>
+          if ah <? lo then cover2 f lo hi a' b
+          else if al <=? lo then (if hi <=? ah then true else cover2 f (ah + 1) hi a' b)
+          else
+            match b with
+            | (bl, bh) :: b' =>
+                if bh <? lo then cover2 f lo hi a b'
+                else if bl <=? lo then (if hi <=? bh then true else cover2 f (bh + 1) hi a b')
+                else false
+            | [] => false
+            end
+      | [] =>
+          match b with
+          | (bl, bh) :: b' =>
+              if bh <? lo then cover2 f lo hi [] b'
+              else if bl <=? lo then (if hi <=? bh then true else cover2 f (bh + 1) hi [] b')
+              else false
+          | [] => false
+          end
+      end
+  end.
+
+Lemma mem_cons r p l : mem r (p :: l) = in_rng r p || mem r l.
+Proof. reflexivity. Qed.
+
+Lemma cover2_sound fuel : forall lo hi a b,
+  cover2 fuel lo hi a b = true -> forall r, lo <= r <= hi -> mem r a || mem r b = true.
+Proof.
+  induction fuel as [|f IH]; intros lo hi a b H r Hr; [discriminate|].
+  cbn [cover2] in H.
+  assert (Huse : forall pl ph (rest : ranges) (other : ranges) (swap : bool),
+             (ph <? lo) = false -> (pl <=? lo) = true ->
+             (if hi <=? ph then true else (if swap then cover2 f (ph + 1) hi other rest else cover2 f (ph + 1) hi rest other)) = true ->
+             in_rng r (pl, ph) || (if swap then mem r other || mem r rest else mem r rest || mem r other) = true).
+  { intros pl ph rest other swap H1 H2 H3. apply N.ltb_ge in H1. apply N.leb_le in H2.
+    destruct (N.le_gt_cases r ph) as [Hle|Hgt].
+    - replace (in_rng r (pl, ph)) with true; [reflexivity|].
+      symmetry. apply in_rng_spec. cbn [fst snd]. lia.
+    - destruct (hi <=? ph) eqn:Hh; [apply N.leb_le in Hh; lia|].
+      destruct swap; rewrite (IH _ _ _ _ H3 r) by lia; apply orb_true_r. }
+  destruct a as [|[al ah] a'].
+  - destruct b as [|[bl bh] b']; [discriminate|]. rewrite mem_cons. cbn [mem existsb orb].
+    destruct (bh <? lo) eqn:E1.
+    + pose proof (IH _ _ _ _ H r Hr) as H0. cbn [mem existsb orb] in H0. rewrite H0. apply orb_true_r.
+    + destruct (bl <=? lo) eqn:E2; [|discriminate].
+      pose proof (Huse bl bh b' [] true E1 E2 H) as H0. cbv iota in H0.
+      cbn [mem existsb orb] in H0. exact H0.
+  - rewrite mem_cons. destruct (ah <? lo) eqn:E1.
+    + pose proof (IH _ _ _ _ H r Hr) as H0. apply orb_true_iff in H0. destruct H0 as [H0|H0]; rewrite H0.
+      * rewrite orb_true_r. reflexivity.
+      * apply orb_true_r.
+    + destruct (al <=? lo) eqn:E2.
+      * pose proof (Huse al ah a' b false E1 E2 H) as H0. cbv iota in H0.
+        rewrite <- orb_assoc. exact H0.
+      * destruct b as [|[bl bh] b']; [discriminate|]. rewrite mem_cons.
+        destruct (bh <? lo) eqn:E3.
+        -- pose proof (IH _ _ _ _ H r Hr) as H0. rewrite mem_cons in H0.
+           apply orb_true_iff in H0. destruct H0 as [H0|H0]; rewrite H0; [reflexivity|].
+           rewrite !orb_true_r. reflexivity.
+        -- destruct (bl <=? lo) eqn:E4; [|discriminate].
+           pose proof (Huse bl bh b' ((al, ah) :: a') true E3 E4 H) as H0. cbv iota in H0.
+           rewrite mem_cons in H0.
+           destruct (in_rng r (al, ah)), (in_rng r (bl, bh)), (mem r a'), (mem r b');
+             cbn in H0 |- *; try reflexivity; discriminate.
+Qed.
+
+Definition incl2 (v a b : ranges) : bool :=
+  forallb (fun p => cover2 (S (List.length a + List.length b)) (fst p) (snd p) a b) v.
+
+Theorem incl2_sound v a b : incl2 v a b = true ->
+  forall r, mem r v = true -> mem r a || mem r b = true.
+Proof.
+  unfold incl2. rewrite forallb_forall. intros H r Hr.
+  apply mem_spec in Hr. destruct Hr as [p [Hin Hp]].
+  exact (cover2_sound _ _ _ _ _ (H _ Hin) r Hp).
+Qed.
